@@ -543,10 +543,9 @@ def domain_problems(text, entries):
             continue
         chain = [t.string]
         j = i + 1
-        spaced = False
+        gaps = []       # gaps[k]: white space / a line break between chain[k], the dot and chain[k+1]
         while j + 1 < len(toks) and toks[j].string == "." and toks[j + 1].type == tokenize.NAME:
-            if toks[j].start != toks[j - 1].end or toks[j + 1].start != toks[j].end:
-                spaced = True
+            gaps.append(toks[j].start != toks[j - 1].end or toks[j + 1].start != toks[j].end)
             chain.append(toks[j + 1].string)
             j += 2
         dotted_before = i > 0 and toks[i - 1].string == "."
@@ -559,9 +558,10 @@ def domain_problems(text, entries):
                         pass    # OLD recurs inside the dotted local name of an import of OLD (`import a.a`)
                     elif p > 0 or dotted_before:
                         probs.append("OLD inside an attribute chain")
-                    elif spaced:
-                        probs.append("reference written with spaces around the dots")
                     else:
+                        # (white space inside the OLD part of the reference - `a . b.f` for OLD a.b - is still a
+                        #  reference to the import's local name: inside the domain, known finding C18-D7; white
+                        #  space behind the OLD part is harmless)
                         ok = False
                         for f, l in imports:
                             lc = l.split(".")
@@ -618,6 +618,92 @@ def reads_through_package_binding(text, entries):
                 return True
         i = j
     return False
+
+
+def _body_chains(text):
+    """(tokens of the chain, gaps) of every dotted NAME chain outside import statements that does not follow a dot."""
+    tree = ast.parse(text)
+    imp_lines = set()
+    for node in ast.walk(tree):
+        if isinstance(node, (ast.Import, ast.ImportFrom)):
+            imp_lines.update(range(node.lineno, node.end_lineno + 1))
+    src = text if text.endswith("\n") else text + "\n"
+    toks = [t for t in tokenize.generate_tokens(io.StringIO(src).readline)
+            if t.type not in (tokenize.NL, tokenize.NEWLINE, tokenize.INDENT, tokenize.DEDENT, tokenize.ENDMARKER)]
+    out = []
+    i = 0
+    depth = 0
+    while i < len(toks):
+        t = toks[i]
+        if t.type == tokenize.OP and t.string in "([{":
+            depth += 1
+        elif t.type == tokenize.OP and t.string in ")]}":
+            depth -= 1
+        if t.type != tokenize.NAME or t.start[0] in imp_lines or (i > 0 and toks[i - 1].string == "."):
+            i += 1
+            continue
+        ch = [t]
+        gaps = []
+        j = i + 1
+        while j + 1 < len(toks) and toks[j].string == "." and toks[j + 1].type == tokenize.NAME:
+            gaps.append(toks[j].start != toks[j - 1].end or toks[j + 1].start != toks[j].end)
+            ch.append(toks[j + 1])
+            j += 2
+        out.append((ch, gaps, depth))
+        i = j
+    return out
+
+
+def spaced_old_reference(text, entries):
+    """Known finding C18-D7: a body reference whose leading components are a dotted (2+ components) OLD and that
+    has white space, a line break or a backslash continuation around one of the dots INSIDE that OLD part
+    (`a . b.f`, `(a\n  .b\n  .f)` for OLD a.b): `\\bOLD\\b` does not match it, the import is renamed, the reference is not."""
+    try:
+        chains = _body_chains(text)
+    except (SyntaxError, tokenize.TokenError):
+        return False
+    for ch, gaps, _ in chains:
+        names = [t.string for t in ch]
+        for o, _n in entries:
+            oc = o.split(".")
+            if len(oc) >= 2 and names[:len(oc)] == oc and any(gaps[:len(oc) - 1]):
+                return True
+    return False
+
+
+def space_a_reference(rng, text, entries):
+    """Rewrite one body reference under a dotted OLD so that one dot inside the OLD part is surrounded by white
+    space / a line break (same program for Python).  Returns the new text or None."""
+    try:
+        chains = _body_chains(text)
+    except (SyntaxError, tokenize.TokenError):
+        return None
+    cands = []
+    for ch, gaps, depth in chains:
+        names = [t.string for t in ch]
+        for o, _n in entries:
+            oc = o.split(".")
+            if len(oc) >= 2 and names[:len(oc)] == oc and not any(gaps) \
+                    and all(t.start[0] == ch[0].start[0] for t in ch[:len(oc)]):
+                cands.append((ch, len(oc), depth))
+    if not cands:
+        return None
+    ch, n, depth = rng.choice(cands)
+    k = rng.randrange(n - 1)                 # the dot between component k and k+1
+    a, b = ch[k], ch[k + 1]
+    forms = [" . ", " .", ". ", "  .  ", ".\\\n        ", " \\\n        ."]
+    if depth > 0:
+        forms += ["\n        .", ".\n        ", "\n        .\n        "] * 2
+    lines = text.split("\n")
+    ln = lines[a.start[0] - 1]
+    lines[a.start[0] - 1] = ln[:a.end[1]] + rng.choice(forms) + ln[b.start[1]:]
+    new = "\n".join(lines)
+    try:
+        if ast.dump(ast.parse(new)) != ast.dump(ast.parse(text)):
+            return None
+    except SyntaxError:
+        return None
+    return new
 
 
 # ----------------------------------------------------------------------------
@@ -1240,6 +1326,10 @@ def _gen_odomain_case(rng, mode=None, chain=None, rel=None):
         relspec = dict(pkg=gen_host_pkg(rng, add), add=add) if is_rel else None
         for _ in range(6):
             text = gen_program(rng, mods, entries, prefer=prefer, rel=relspec)
+            if rng.random() < 0.05:
+                # a reference written with white space / a line break around a dot (known finding C18-D7 when the dot
+                # is inside a dotted OLD)
+                text = space_a_reference(rng, text, dom_entries) or text
             if not domain_problems(text, dom_entries):
                 case = dict(map=entries, text=text, mods=mods, params=gen_params(rng),
                             mode=mode or rng.choice(["transform"] * 6 + ["canonical"] * 3), odomain=True)
